@@ -7,7 +7,7 @@
 (* Defect # "none" replaces set_up / the insertion by a faulty variant; the  *)
 (* checker uses those configurations to show that the invariants bite.       *)
 EXTENDS MatrixCache
-CONSTANTS MaxLen, NumGens, Defect
+CONSTANTS MaxLen, NumGens, Defect, Impls
 VARIABLES st, n, last, want   \* want: the geometry the caller last asked set_up for (history variable)
 
 C1 == [N |-> 8, R |-> 2, span |-> 1, ge |-> FALSE, maxDelta |-> 1, mash |-> 1, tofMash |-> 0, maxT |-> 3,
@@ -31,26 +31,33 @@ GetV(s, b) ==
        ELSE o
   ELSE DoGet(s, b)
 
-Init == st = DefaultMatrix /\ n = 0 /\ last = Out(DefaultMatrix, << >>, NoRow) /\ want = 0
+Init == st \in { NewMatrix(i, AllSym, TRUE, TRUE) : i \in Impls } /\ n = 0 /\ last = Out(DefaultMatrix, << >>, NoRow) /\ want = 0
 Step(o) == n < MaxLen /\ st' = o.st /\ last' = o /\ n' = n + 1 /\ UNCHANGED want
-Get == \E b \in ReqBins : st.gen # 0 /\ Step(GetV(st, b))
+Get == \E b \in ReqBins : st.gen >= 1 /\ Step(GetV(st, b))
 EnableCache == \E v \in BOOLEAN : Step(DoEnableCache(st, v))
 StoreOnlyBasic == \E v \in BOOLEAN : Step(DoStoreOnlyBasic(st, v))
-Clear == st.gen # 0 /\ Step(DoClear(st))
+Clear == st.gen >= 1 /\ Step(DoClear(st))
 SetSwitches == \E sw \in SwChoices : Step(DoSetSwitches(st, sw))
 SetUp == \E gen \in 1..NumGens : n < MaxLen /\ st' = SetUpV(st, gen).st /\ last' = SetUpV(st, gen) /\ n' = n + 1 /\ want' = gen
-Next == Get \/ EnableCache \/ StoreOnlyBasic \/ Clear \/ SetSwitches \/ SetUp
+\* parsing (Interpolation) sets switches and cache mode at once
+Parse == \E sw \in SwChoices : \E m \in {<<FALSE, FALSE>>, <<TRUE, TRUE>>, <<TRUE, FALSE>>} :
+           st.impl = "Interpolation" /\ Step(DoParse(st, sw, m[1], m[2]))
+\* a set_up that is refused; the caller still wants its previous geometry and must set up again before use
+SetUpRefused == n < MaxLen /\ st' = DoSetUpRefused(st).st /\ last' = DoSetUpRefused(st) /\ n' = n + 1 /\ want' = -1
+Next == Get \/ EnableCache \/ StoreOnlyBasic \/ Clear \/ SetSwitches \/ SetUp \/ Parse \/ SetUpRefused
 Spec == Init /\ [][Next]_<<st, n, last, want>>
 View == <<st, n, want>>
 
 InvCache == CacheSound(st)
-InvGet == st.gen # 0 => \A b \in ReqBins : GetCorrect(st, b) /\ GetDefined(st, b)
+InvGet == st.gen >= 1 => \A b \in ReqBins : GetCorrect(st, b) /\ GetDefined(st, b)
 \* the last call returned the row of the current geometry (or an error / no row)
 InvLast == last.ret = NoRow \/ last.ret.gen = want
 \* "after setting the matrix up again for another geometry": the object is set up for the geometry asked for
 InvGen == st.gen = want
 \* a set_up that is not skipped leaves an empty cache and announces it
 InvSetUp == (last.hooks = << EvClear >>) => st.cache = {}
+\* nothing is held for use after a refused set_up
+InvRefused == st.gen = -1 => (st.cache = {} /\ ~st.done)
 \* S4 on a small box (evaluated in the initial state only)
 InvKey == n = 0 => (S4([ax |-> 2, tang |-> 2, tof |-> 2], 3) /\ S4([ax |-> 3, tang |-> 1, tof |-> 2], 4))
 =============================================================================
